@@ -93,7 +93,7 @@ def _one_distance(ctx, case, rec, d):
     if case.get('faint') or case.get('f32'):
         # a spectrum spanning many decades (the far-ultraviolet tail of a photosphere): entries 16 and (double-precision files) 24 decades below the rest
         base = base.copy()
-        base[:, 0] *= 1e-16
+        base[:, 0] *= (1e-20 if case.get('f32') else 1e-16)          # (single precision: F_nu in cgs would be 1e-45, below the type's range, if formed in that type)
         if not case.get('f32'):
             base[-1, 1] *= 1e-24          # (in a single-precision file the converted value would leave the range of the type)
         err = np.where(base > 0, base * 0.125, err)
